@@ -36,9 +36,74 @@ pub fn current_num_threads() -> usize {
     sim::workers()
 }
 
-/// Index of the current worker: the simulation has no stable worker identity.
+/// Index of the current worker within the simulated pool: `None` outside parallel regions,
+/// `Some(i)`, `i < current_num_threads()`, inside (worker `j` of a region started by the worker
+/// with index `c` has index `(c + j) % k` — the caller takes part in its own region, as in
+/// rayon; two workers of the same region never share an index).
 pub fn current_thread_index() -> Option<usize> {
-    None
+    sim::thread_index()
+}
+
+/// `rayon::Yield`
+#[derive(Clone, Copy, Debug, PartialEq, Eq)]
+pub enum Yield {
+    Executed,
+    Idle,
+}
+
+/// `rayon::yield_now`: a scheduling point.
+pub fn yield_now() -> Option<Yield> {
+    sim::switch_point();
+    sim::thread_index().map(|_| Yield::Idle)
+}
+/// `rayon::yield_local`
+pub fn yield_local() -> Option<Yield> {
+    yield_now()
+}
+
+/// `rayon::max_num_threads`
+pub fn max_num_threads() -> usize {
+    1 << 16
+}
+
+/// `rayon::spawn`: fire-and-forget work. In sequential mode it runs at once; under the
+/// simulated scheduler it is a task of its own that runs at any later point (the execution
+/// does not end before it has finished).
+pub fn spawn<F>(f: F)
+where
+    F: FnOnce() + Send + 'static,
+{
+    if sim::mode() == sim::Mode::Sequential {
+        f();
+    } else {
+        shuttle::thread::spawn(move || {
+            sim::switch_point();
+            f()
+        });
+    }
+}
+/// `rayon::spawn_fifo`
+pub fn spawn_fifo<F>(f: F)
+where
+    F: FnOnce() + Send + 'static,
+{
+    spawn(f)
+}
+
+/// `rayon::in_place_scope` / `rayon::scope_fifo` / `rayon::in_place_scope_fifo`
+pub fn in_place_scope<'scope, OP, R>(op: OP) -> R
+where
+    OP: FnOnce(&Scope<'scope>) -> R + Send,
+    R: Send,
+{
+    scope(op)
+}
+pub fn scope_fifo<'scope, OP, R>(op: OP) -> R
+where
+    OP: FnOnce(&Scope<'scope>) -> R + Send,
+    R: Send,
+{
+    scope(op)
 }
 
 /// Two closures that may run in either order or overlapped.
@@ -200,5 +265,17 @@ impl ThreadPool {
         R: Send,
     {
         self.install(|| scope(op))
+    }
+    pub fn spawn<F>(&self, f: F)
+    where
+        F: FnOnce() + Send + 'static,
+    {
+        spawn(f)
+    }
+    pub fn current_thread_index(&self) -> Option<usize> {
+        current_thread_index()
+    }
+    pub fn yield_now(&self) -> Option<Yield> {
+        yield_now()
     }
 }
